@@ -285,6 +285,25 @@ def _clone_stmt(st):
     return c
 
 
+def _canon_signs(tree):
+    """E0 normalisation: `a + (-c)` is `a - c` and `a - (-c)` is `a + c` for a numeric literal c (what folding a table column of signed offsets leaves)."""
+    n_ = 0
+    for n in ast.walk(tree):
+        if isinstance(n, ast.BinOp) and isinstance(n.op, (ast.Add, ast.Sub)):
+            r = n.right
+            c = None
+            if isinstance(r, ast.UnaryOp) and isinstance(r.op, ast.USub) and isinstance(r.operand, ast.Constant) and isinstance(r.operand.value, (int, float)) \
+                    and not isinstance(r.operand.value, bool):
+                c = r.operand
+            elif isinstance(r, ast.Constant) and isinstance(r.value, (int, float)) and not isinstance(r.value, bool) and r.value < 0:
+                c = ast.copy_location(ast.Constant(value=-r.value), r)
+            if c is not None:
+                n.right = c
+                n.op = ast.Sub() if isinstance(n.op, ast.Add) else ast.Add()
+                n_ += 1
+    return n_
+
+
 def _canon_not_else(tree):
     """E0 normalisation:  `if not c: A else: B`  is stored as  `if c: B else: A`  (a two-way decision has one spelling; elif chains untouched)."""
     elifs = set()
@@ -855,6 +874,11 @@ class Repo:
                         c_._parent = n_
         from .temps import fold_new_temporaries
         self.folded_temps = fold_new_temporaries(self) if os.environ.get("VSA_FOLD_TEMPS", "1") == "1" else 0
+        for m_ in self.modules.values():
+            if _canon_signs(m_.tree):
+                for n_ in ast.walk(m_.tree):
+                    for c_ in ast.iter_child_nodes(n_):
+                        c_._parent = n_
         ypath0 = os.path.join(pkgdir, "core", "attributes.yml")
         if os.path.exists(ypath0):
             self.attrs = AttrView(load_yaml(ypath0))
